@@ -25,6 +25,16 @@ def _dof_guard(F, ev, R, c, **kw):
     rules_stats.rule_dof_guard(F, ev, R, c, checked=not c.startswith("release"), **kw)
 
 
+def _panic_sites(F, ev, R, c, **kw):
+    import rules_panic
+    return rules_panic.rule_panic_sites(F, ev, R, c, **kw)
+
+
+def _chi2(F, ev, R, c, **kw):
+    import rules_stats2
+    return rules_stats2.rule_chi2(F, ev, R, c, **kw)
+
+
 PROPS = {}
 
 PROPS["C09"] = {
@@ -47,6 +57,10 @@ PROPS["C12"] = {
     "rules": [
         ("R-DOF-GUARD", _dof_guard, {}),
         ("R-STATS-ERR-MAP", rules_stats.rule_stats_err_map, {}),
+        # "... or the model errs while the statistics are computed ... returns Err, without panicking"
+        ("R-ERR-DISCIPLINE", rules_err.rule_err_discipline, {}),
+        ("R-PANIC-SITES", _panic_sites, {}),
+        ("R-CHI2", _chi2, {}),
     ],
     "explanation": "Guard-before-subtraction and decision-table rules on FitStatistics' constructor and fit_with_statistics: the "
                    "degrees-of-freedom role is N-(M+P) of the model counts, every overflow-checked subtraction of these operands is "
